@@ -1,5 +1,5 @@
 (* C02 - Every activation episode is closed exactly once, also on deactivation. *)
-From BEI Require Import Model.Action Spec.Events Spec.Episode Proofs.EpisodeP.
+From BEI Require Import Model.React Spec.Events Spec.Episode Proofs.EpisodeP Proofs.RegistryP Proofs.ReactP.
 
 (* for every history of states of an action, the per-frame event chunks form well-formed episodes:
    Started+companion when leaving None, exactly one Ongoing/Fired per active frame, Canceled after
@@ -20,6 +20,21 @@ Theorem C02_removal_closes : forall a d dt recips,
   d_state d' = SNone /\ d_value d' = vzero (aid_dim a).
 Proof. intros a d dt recips. apply removal_events. apply vdim_vzero. Qed.
 
+(* deactivation requested from inside an observer of the same frame's action events (Model/React.v):
+   without armed reactions delivery is the identity; with any set of reactions, delivery always terminates
+   with a result (fuel = number of armed reactions suffices, each fires at most once), no operation an
+   observer requests can panic, the registry invariant of C07 still holds afterwards - so the instance an
+   observer removes is really gone and cannot produce anything later - and this lifts to whole frames *)
+Theorem C02_no_reactions_identity : forall sc fuel evs w, deliver sc fuel evs [] w = Some (mkDeliv evs [] w []).
+Proof. exact deliver_no_reactions. Qed.
+Theorem C02_observer_requests_total : forall sc fuel evs armed w,
+  reg_inv sc w -> (length armed <= fuel)%nat ->
+  exists d, deliver sc fuel evs armed w = Some d /\ reg_inv sc (dv_world d) /\ (length (dv_armed d) <= length armed)%nat.
+Proof. exact deliver_total. Qed.
+Theorem C02_frame_with_reactions_total : forall sc armed w f,
+  reg_inv sc w -> exists fo, frame_r sc armed w f = Some fo /\ reg_inv sc (fr_world fo).
+Proof. exact frame_r_total. Qed.
+
 Example C02_nonvacuous :
   accepts Idle (chunks_of SNone [SOngoing; SFired; SFired; SNone; SNone; SFired; SNone]) = Some Idle /\
   frame_chunk (Open SOngoing) [ECompleted] = None /\ close_chunk (Open SFired) [ECompleted] = true /\
@@ -29,3 +44,6 @@ Proof. repeat split. Qed.
 Print Assumptions C02_history_wellformed.
 Print Assumptions C02_one_frame.
 Print Assumptions C02_removal_closes.
+Print Assumptions C02_no_reactions_identity.
+Print Assumptions C02_observer_requests_total.
+Print Assumptions C02_frame_with_reactions_total.
